@@ -214,7 +214,17 @@ def run(F, rep, tier):
     r7 = rep.rule("R20.7", "the shared evaluator closures capture no interior-mutable state (no cache, once-cell, mutex or atomic) apart from the registries that evaluation only reads")
     c13.capture_rule(F, G, rep, r7, 130)
     nreads = 0
+    from props import c12
+    wrappers = c12.lock_wrappers(F, "dmntk_")
     for n in sorted(seen):
+        # a call of a local wrapper that only acquires the lock it is given counts as the acquisition
+        for kind, callee, bi, line in G.edges.get(n, ()):
+            if kind == "call" and wrappers.get(callee) == "read" and n not in wrappers:
+                nreads += 1
+                rep.ok(r5, "%s:read" % n, "read lock (through %s)" % callee.split("::")[-1])
+            elif kind == "call" and wrappers.get(callee) == "write" and n not in wrappers:
+                rep.violation(r5, "%s:%s" % (n, callee.split("::")[-1]), "a write lock is taken (through %s) in code reachable from evaluation: %s" % (callee, " -> ".join(x.split("::")[-1] for x in G.path(pred, n))),
+                              "%s:%s" % (F.bodies[n]["file"], line))
         for (p, bi, line, c) in G.ext_calls.get(n, ()):
             if not p:
                 continue
